@@ -98,7 +98,7 @@ def levelsSupported (f : FileRec) : Bool :=
   match acc.doy with
   | none => true
   | some n => (match acc.stdYear with
-      | some y => 1 ≤ y && y ≤ 9990 && (1 ≤ n || 2 ≤ y)
+      | some y => 1 ≤ y && y ≤ 9998 && (n ≤ 367 || y ≤ 9990) && (1 ≤ n || 2 ≤ y)
       | none => false)
 
 /-- ops shared by both drivers; `none` = not a shared op -/
